@@ -106,12 +106,34 @@ def run(ctx, ck):
         f = m.func(q)
         if 'geo_tag' not in f.all_params:
             raise AnalysisError('%s lost its geo_tag parameter' % q)
-        for n in walk_no_nested(f.node):
-            if isinstance(n, ast.Name) and n.id == 'geo_tag' and isinstance(n.ctx, ast.Load):
-                kind = classify_tag_use(n)
-                n_uses += 1
-                ck.ob('R-KIND.geo-tag', '%s|%s' % (q, kind if not kind.startswith('other') else kind),
-                      not kind.startswith('other'), f.loc(n), 'geo_tag used as %s' % kind)
+        def tag_uses(func, pname, depth, seen):
+            out = []
+            if (func.qual, pname) in seen or depth > 4:
+                return out
+            seen.add((func.qual, pname))
+            for n in walk_no_nested(func.node):
+                if isinstance(n, ast.Name) and n.id == pname and isinstance(n.ctx, ast.Load):
+                    kind = classify_tag_use(n)
+                    if kind.startswith('other'):
+                        # passed on to a function of the package: judge the uses there
+                        p_ = parent(n)
+                        if isinstance(p_, ast.Call) and n in p_.args:
+                            gs = prog.callees(p_, prog.env[func.qual], func)
+                            if gs:
+                                idx = p_.args.index(n)
+                                sub = []
+                                for g_, bound in gs:
+                                    ps = g_.params[1:] if g_.cls is not None else g_.params
+                                    if idx < len(ps):
+                                        sub += tag_uses(g_, ps[idx], depth + 1, seen)
+                                out += sub
+                                continue
+                    out.append((func, n, kind))
+            return out
+        for (fu, n, kind) in tag_uses(f, 'geo_tag', 0, set()):
+            n_uses += 1
+            ck.ob('R-KIND.geo-tag', '%s|%s|%s' % (q, fu.qual.split('.')[-1], kind),
+                  not kind.startswith('other'), fu.loc(n), 'geo_tag used as %s' % kind)
         stores = [n for n in walk_no_nested(f.node) if isinstance(n, ast.Name) and n.id == 'geo_tag'
                   and isinstance(n.ctx, ast.Store)]
         ck.ob('R-KIND.geo-tag', q + '|not-reassigned', not stores, f.loc(), 'geo_tag is never reassigned')
@@ -121,13 +143,23 @@ def run(ctx, ck):
     f = m.func('mininec.Mininec.register_source')
     fl = ctx.flow(f)
     regs = calls_in(f.node, attr='register')
-    ck.floor('source.register calls', len(regs), 2)
+    ck.floor('source.register calls', len(regs), 1)
     from ..cfg import if_chain_preds
+    from ..dataflow import expand_call_roots
     forms = {}
+    direct = len(regs) == 2
     for c in regs:
         guards = if_chain_preds(fl.cfg, fl.node_id_of(c))
         tagged = any(t == 'geo_tag is not None' and b for t, b in guards)
         arg = fl.inline(c.args[1], fl.node_id_of(c)) if len(c.args) > 1 else None
+        if not direct:
+            # index computed by a helper: it must at least derive from the pulse number given; the
+            # helper's list accesses are judged by R-BOUNDS.pulse-index
+            r = expand_call_roots(ctx, f, fl.roots(c.args[1], fl.node_id_of(c)))
+            ok = ('param', 'pulse') in r
+            ck.ob('R-KIND.registered-index', '%s|via-helper' % f.qual, ok, f.loc(c),
+                  'registers %s (derived from the pulse number: %s)' % (norm(arg), ok))
+            continue
         forms[tagged] = norm(arg) if arg is not None else '?'
         if tagged:
             ok = norm(arg) in ('self.geo.by_tag.get(geo_tag).pulses[pulse].idx', 'self.geo.by_tag[geo_tag].pulses[pulse].idx')
@@ -135,17 +167,13 @@ def run(ctx, ck):
             ok = norm(arg) == 'pulse'
         ck.ob('R-KIND.registered-index', '%s|%s' % (f.qual, 'tagged' if tagged else 'absolute'), ok, f.loc(c),
               'registers %s' % norm(arg))
-        # a bounds check raising ValueError dominates the registration
-        raises = [fl.cfg.node_of(r) for r in walk_no_nested(f.node) if isinstance(r, ast.Raise)]
-        checks = [n for n in walk_no_nested(f.node) if isinstance(n, ast.If) and isinstance(n.test, ast.Compare)
-                  and norm(n.test.left) == 'pulse' and isinstance(n.test.ops[0], ast.GtE)]
-        want = 'len(w.pulses)' if tagged else 'len(self.pulses)'
-        dom = [ch for ch in checks if norm(ch.test.comparators[0]) == want and
-               fl.cfg.must_pass(fl.node_id_of(c), {fl.cfg.node_of(ch)})]
-        ck.ob('R-KIND.registered-index', '%s|%s|bounds' % (f.qual, 'tagged' if tagged else 'absolute'),
-              bool(dom), f.loc(c), 'range check `pulse >= %s` precedes the registration' % want)
-    ck.ob('R-KIND.registered-index', f.qual + '|both-forms', set(forms) == {True, False}, f.loc(),
-          'tagged and absolute forms both present: %s' % forms)
+    if direct:
+        ck.ob('R-KIND.registered-index', f.qual + '|both-forms', set(forms) == {True, False}, f.loc(),
+              'tagged and absolute forms both present: %s' % forms)
+    from ._bounds import check_pulse_bounds
+    ck.rule('R-BOUNDS.pulse-index', 'user pulse number checked against the length of the list it indexes')
+    nb = check_pulse_bounds(ctx, ck, ['mininec.Mininec.register_source', 'mininec.Mininec.register_load'])
+    ck.floor('user-indexed pulse lists', nb, 1)
     # register_load
     g = m.func('mininec.Mininec.register_load')
     gfl = ctx.flow(g)
@@ -157,15 +185,15 @@ def run(ctx, ck):
         pv = norm(a.slice)
         ds = [d for d in gfl.def_exprs(pv, gfl.node_id_of(adds[0])) if d[0] == 'assign']
         vals = sorted(norm(gfl.inline(d[1], d[2])) for d in ds)
-        ok = vals == sorted(['pulse', 'self.geo.by_tag[geo_tag].pulses[pulse].idx'])
-        why = 'pulse loaded = self.pulses[p] with p in %s' % vals
+        if vals == sorted(['pulse', 'self.geo.by_tag[geo_tag].pulses[pulse].idx']):
+            why = 'pulse loaded = self.pulses[p] with p in %s' % vals
+        else:
+            r = set()
+            for d in ds:
+                r |= expand_call_roots(ctx, g, gfl.roots(d[1], d[2]))
+            ok = ('param', 'pulse') in r
+            why = 'pulse loaded = self.pulses[p], p = %s (derived from the pulse number: %s)' % (vals, ok)
     ck.ob('R-KIND.registered-index', g.qual, ok, g.loc(adds[0] if adds else None), why)
-    for want in ('len(w.pulses)', 'len(self.pulses)'):
-        checks = [n for n in walk_no_nested(g.node) if isinstance(n, ast.If) and isinstance(n.test, ast.Compare)
-                  and norm(n.test.left) == 'pulse' and isinstance(n.test.ops[0], ast.GtE)
-                  and norm(n.test.comparators[0]) == want and any(isinstance(s, ast.Raise) for s in n.body)]
-        ck.ob('R-KIND.registered-index', '%s|bounds|%s' % (g.qual, want), len(checks) == 1, g.loc(),
-              'range check `pulse >= %s` raises' % want)
     # whole-object attachment resolves the tag through by_tag
     whole = [s for s in walk_no_nested(g.node) if isinstance(s, ast.Assign) and norm(s.value) == 'self.geo.by_tag[geo_tag]']
     ck.ob('R-KIND.registered-index', g.qual + '|whole-object', len(whole) >= 1, g.loc(),
